@@ -173,9 +173,20 @@ def who_may_call(facts, res):
         cs = e6.callers_of(facts, pred)
         if not cs:
             raise BrokenCheck("R12-2: no caller of %s found" % callee)
+        closure = set()
+        if allowed != "CONSTRUCTORS":
+            # an allowed caller stands for itself, for the functions nested in it (or that it is nested in: a nested helper that was
+            # inlined), and for the private functions that are only called from it (the pieces it may be split into)
+            for a in allowed:
+                closure.add(a)
+                g = facts.by_path.get(a)
+                if g is not None:
+                    closure |= {x["path"] for x in facts.family(g)}
         for caller, e in cs:
             st["instances"] += 1
-            ok = mutset.is_constructor(caller["path"]) if allowed == "CONSTRUCTORS" else caller["path"] in allowed
+            cp = caller["path"]
+            ok = mutset.is_constructor(cp) if allowed == "CONSTRUCTORS" else \
+                (cp in closure or any(cp.startswith(a + "::") or a.startswith(cp + "::") for a in allowed))
             res.oblige(1, ok)
             if not ok:
                 res.add(Finding(rule, "%s<-%s" % (callee, caller["path"]),
